@@ -30,6 +30,7 @@ type c19Scn struct {
 	Flush   string `json:"flush"`   // each | end | none
 	RChunk  int    `json:"rchunk"`  // Read buffer size, 0 = 16 KiB
 	Buf     int    `json:"buf"`     // 0 = default buffers, else MaxStream{Write,Read}BufferSize = MaxConnReadBufferSize = Buf on both sides
+	Pause   bool   `json:"pause"`   // flush after the last write and wait 50 ms (fake) before closing: the FIN travels in a frame of its own
 }
 
 type c19Case struct {
@@ -144,13 +145,16 @@ func c19Writer(r *c19Run, sc c19Scn, s *Stream, live bool) bool {
 			}
 		}
 	}
-	if sc.Flush == "end" {
+	if sc.Flush == "end" || sc.Pause {
 		if err := s.Flush(); err != nil {
 			if live {
 				r.failf("C19/complete/flush-"+c19ErrClass(err), "stream %d: final Flush: %v", id, err)
 			}
 			return false
 		}
+	}
+	if sc.Pause {
+		time.Sleep(50 * time.Millisecond)
 	}
 	return true
 }
@@ -467,6 +471,9 @@ func c19Scenarios(c *vx.Ctx) (all []c19Scn, small []c19Scn) {
 	add(c19Scn{Streams: "uni1", Bytes: 5000, WChunk: 100, Flush: "each", Buf: 512})
 	add(c19Scn{Streams: "bidi1", Bytes: 1, Flush: "none", Buf: 512})
 	add(c19Scn{Streams: "uni1", Bytes: 40000, Flush: "none"})
+	add(c19Scn{Streams: "uni1", Bytes: 100, Flush: "none", Pause: true})
+	add(c19Scn{Streams: "uni3", Bytes: 1200, WChunk: 100, Flush: "each", RChunk: 100, Pause: true})
+	add(c19Scn{Streams: "bidi1", Bytes: 1200, Flush: "none", Buf: 512, Pause: true})
 	if !c.Quick() {
 		// long runs (hundreds of datagrams: tiny windows, byte-wise readers)
 		for _, st := range []string{"uni1", "bidi1", "uni3"} {
@@ -481,6 +488,9 @@ func c19Scenarios(c *vx.Ctx) (all []c19Scn, small []c19Scn) {
 							continue // covered above
 						}
 						add(c19Scn{Streams: st, Bytes: by, WChunk: 100, Flush: fl, RChunk: 100, Buf: buf})
+						if fl == "none" && by <= 1200 {
+							add(c19Scn{Streams: st, Bytes: by, WChunk: 100, Flush: fl, RChunk: 100, Buf: buf, Pause: true})
+						}
 					}
 				}
 			}
@@ -545,7 +555,7 @@ func TestVerif_C19(t *testing.T) {
 		kAll := vx.Pick(c, 1, 2)
 		kSmall := vx.Pick(c, 2, 3)
 		pairMaxN := 40
-		c.Rule(fmt.Sprintf("fault enumeration: %d application scenarios (streams x bytes x write chunking x flush x read chunk x buffer sizes, listed in c19Scenarios) on two real quic Endpoints with real TLS in a synctest bubble; per scenario the default run (deliver everything in order) plus (part k1) every single deviation from {drop, dup, dup3, hold1, hold3, late (timer first), part (4 s black hole)} at every datagram index 0..N+2 of the default run (both directions; N measured per scenario), (part dead) a permanent black hole at every index for the %d smallest scenarios, (part k2..) every placement of 2..k deviations from {drop, dup3, hold1, late, part} at increasing indices, k=%d for every scenario with N<=%d and k=%d for the smallest scenarios. After the last deviation the network is perfect. Non-trivial = all deviations of the case took effect and the run completed", len(all), len(small), kAll, pairMaxN, kSmall))
+		c.Rule(fmt.Sprintf("fault enumeration: %d application scenarios (streams x bytes x write chunking x flush x read chunk x buffer sizes x pause-before-close, listed in c19Scenarios) on two real quic Endpoints with real TLS in a synctest bubble; per scenario the default run (deliver everything in order) plus (part k1) every single deviation from {drop, dup, dup3, hold1, hold3, late (timer first), part (4 s black hole)} at every datagram index 0..N+2 of the default run (both directions; N measured per scenario), (part dead) a permanent black hole at every index for the %d smallest scenarios, (part k2..) every placement of 2..k deviations from {drop, dup3, hold1, late, part} at increasing indices, k=%d for every scenario with N<=%d and k=%d for the smallest scenarios. After the last deviation the network is perfect. Non-trivial = all deviations of the case took effect and the run completed", len(all), len(small), kAll, pairMaxN, kSmall))
 		c.Assume("timeouts are outside the property: HandshakeTimeout and MaxIdleTimeout are disabled on both endpoints; instead every application operation must complete (reads to io.EOF, Close()==nil) within 1 h of fake time and 4000 datagrams once the network delivers again")
 		c.Assume("packet-number skipping (the only randomness that changes packet structure) is moved out of reach white-box; connection IDs and TLS randomness only change values. Go select order inside an endpoint is not owned: oracles hold on every outcome")
 		c.Assume("Close()==nil is judged against the peer's qlog (packet_received STREAM frames covering every byte and the FIN) at the moment Close returns")
